@@ -108,3 +108,9 @@ func verifH_C11_ocra() {
 		verifAssert(!verifDependsOn(r1, "b."), "first-result-unchanged-by-second-call")
 	}
 }
+
+// suite lookups answer independently of earlier lookups (they write nothing shared): see C12/lookups
+//
+//verif:harness prop=C11 name=lookups
+//verif:cases quick text=0..4
+func verifH_C11_lookups() { verifLookups() }
